@@ -1,0 +1,28 @@
+//go:build verif
+
+package cfgerrors
+
+// Contracts for package cfgerrors (comment-only; read by /verif/govc).
+
+//@ func UnacceptableOriginPatternError.Error
+//@   props C05 C17
+//@   requires err != nil
+//@ func UnacceptableMethodError.Error
+//@   props C05 C17
+//@   requires err != nil
+//@ func UnacceptableHeaderNameError.Error
+//@   props C05 C17
+//@   requires err != nil
+//@ func MaxAgeOutOfBoundsError.Error
+//@   props C05 C17
+//@   requires err != nil
+//@ func PreflightSuccessStatusOutOfBoundsError.Error
+//@   props C05 C17
+//@   requires err != nil
+//@ func IncompatibleOriginPatternError.Error
+//@   props C05 C17
+//@   requires err != nil
+//@ func IncompatiblePrivateNetworkAccessModesError.Error
+//@   props C05 C17
+//@ func IncompatibleWildcardResponseHeaderNameError.Error
+//@   props C05 C17
